@@ -25,16 +25,19 @@ type C17Call struct {
 type C17Step struct {
 	Method  string    `json:"method"`
 	Table   string    `json:"table"`
-	Raw     []string  `json:"raw"`  // generator's arguments
-	Args    []string  `json:"args"` // canonical form of what the manager was called with
+	Raw     []string  `json:"raw"`       // generator's arguments
+	Args    []string  `json:"args"`      // canonical form of what the manager was called with
 	NotFnd  bool      `json:"not_found"` // manager returned ErrManagerTableNotFound
-	Known   bool      `json:"known"`   // registry held the id before the call
-	Calls   []C17Call `json:"calls"`   // engine calls observed during the manager call
-	MgrErr  bool      `json:"mgr_err"` // manager returned a non-nil error
+	Known   bool      `json:"known"`     // registry held the id before the call
+	Calls   []C17Call `json:"calls"`     // engine calls observed during the manager call
+	MgrErr  bool      `json:"mgr_err"`   // manager returned a non-nil error
 	MgrRes  string    `json:"mgr_res"`
 	EngErr  bool      `json:"eng_err"`
 	EngRes  string    `json:"eng_res"`
 	Present bool      `json:"present_after"`
+	GenPre  int       `json:"gen_before"` // generation of the engine registered under the id: -1 none, -2 an engine that is not one of ours
+	GenPost int       `json:"gen_after"`
+	NewGen  int       `json:"new_gen"` // CreateTable: generation given to the engine if the creation succeeds
 }
 
 type C17Case struct {
@@ -77,7 +80,9 @@ func resString(err error, extra string) string {
 	return s
 }
 
-func fmtJoin(j pt.JoinPlayer) string { return fmt.Sprintf("%s/%d/%d", j.PlayerID, j.RedeemChips, j.Seat) }
+func fmtJoin(j pt.JoinPlayer) string {
+	return fmt.Sprintf("%s/%d/%d", j.PlayerID, j.RedeemChips, j.Seat)
+}
 func fmtJoins(js []pt.JoinPlayer) string {
 	xs := make([]string, len(js))
 	for i, j := range js {
@@ -102,8 +107,20 @@ func fmtMap(m map[string]int) string {
 // proxyEngine forwards everything to inner and records the calls.
 type proxyEngine struct {
 	pt.TableEngine
-	id string
-	r  *recorder
+	id  string
+	r   *recorder
+	gen int
+}
+
+func genOf(m pt.Manager, id string) int {
+	te, err := m.GetTableEngine(id)
+	if err != nil {
+		return -1
+	}
+	if p, ok := te.(*proxyEngine); ok {
+		return p.gen
+	}
+	return -2
 }
 
 func (p *proxyEngine) ReleaseTable() error {
@@ -265,9 +282,28 @@ func genC17(r *RNG, idx int) C17Case {
 		if r.Chance(1, 10) {
 			tb = "nosuch"
 		}
+		if i >= len(perm) && r.Chance(1, 7) {
+			// the three non-forwarding methods
+			switch r.Intn(8) {
+			case 0:
+				m = "Reset"
+			case 1, 2:
+				m = "GetTableEngine"
+			default:
+				m = "CreateTable"
+				if r.Chance(1, 2) {
+					tb = fmt.Sprintf("n%d", r.Intn(4)) // an id that may not exist yet
+				}
+			}
+		}
 		pl := players[r.Intn(len(players))]
 		var args []string
 		switch m {
+		case "CreateTable":
+			args = []string{"ok"}
+			if r.Chance(1, 2) {
+				args = []string{"toomany"} // more join players than seats: the engine refuses
+			}
 		case "SetUpTableGame":
 			args = []string{fmt.Sprint(1 + r.Intn(5)), pl} // at most one participant: the callback then opens nothing
 		case "UpdateBlind":
@@ -296,114 +332,174 @@ func runC17Case(c *C17Case) {
 	m := pt.NewManager()
 	rec := &recorder{}
 	opts := pt.NewTableEngineOptions()
-	for _, id := range c.Tables {
-		setting := pt.TableSetting{TableID: id, Meta: pt.TableMeta{CompetitionID: "comp", Rule: "default", Mode: "ct",
+	gen := 0
+	mkSetting := func(id string, tooMany bool) pt.TableSetting {
+		st := pt.TableSetting{TableID: id, Meta: pt.TableMeta{CompetitionID: "comp", Rule: "default", Mode: "ct",
 			MaxDuration: 3600, TableMaxSeatCount: 6, TableMinPlayerCount: 2, MinChipUnit: 1, ActionTime: 10},
 			Blind: pt.TableBlindState{Level: 1, Ante: 0, Dealer: 0, SB: 10, BB: 20}}
-		if _, err := m.CreateTable(opts, nil, setting); err != nil {
-			panic(err)
+		if tooMany {
+			for k := 0; k < 7; k++ {
+				st.JoinPlayers = append(st.JoinPlayers, pt.JoinPlayer{PlayerID: fmt.Sprintf("j%d", k), RedeemChips: 100, Seat: -1})
+			}
 		}
-		tid := id
+		return st
+	}
+	wrap := func(tid string, g int) {
 		pt.VerifWrapTableEngine(m, tid, func(te pt.TableEngine) pt.TableEngine {
-			return &proxyEngine{TableEngine: te, id: tid, r: rec}
+			if _, ok := te.(*proxyEngine); ok {
+				return te
+			}
+			return &proxyEngine{TableEngine: te, id: tid, r: rec, gen: g}
 		})
 	}
+	for _, id := range c.Tables {
+		if _, err := m.CreateTable(opts, nil, mkSetting(id, false)); err != nil {
+			panic(err)
+		}
+		gen++
+		wrap(id, gen)
+	}
+	panicked := false
 	for i := range c.Ops {
+		if panicked {
+			c.Ops = c.Ops[:i]
+			break
+		}
 		s := &c.Ops[i]
-		rec.mu.Lock()
-		rec.calls = nil
-		rec.last, rec.lastE = "", false
-		rec.mu.Unlock()
-		s.Known = pt.VerifHasTable(m, s.Table)
-		var err error
-		extra := ""
-		a := s.Raw
-		var canon []string
-		switch s.Method {
-		case "ReleaseTable":
-			err = m.ReleaseTable(s.Table)
-		case "PauseTable":
-			err = m.PauseTable(s.Table)
-		case "CloseTable":
-			err = m.CloseTable(s.Table)
-		case "StartTableGame":
-			err = m.StartTableGame(s.Table)
-		case "SetUpTableGame":
-			parts := map[string]int{a[1]: 0}
-			canon = []string{a[0], fmtMap(parts)}
-			err = m.SetUpTableGame(s.Table, atoi(a[0]), parts)
-		case "UpdateBlind":
-			canon = a
-			err = m.UpdateBlind(s.Table, atoi(a[0]), int64(atoi(a[1])), int64(atoi(a[2])), int64(atoi(a[3])), int64(atoi(a[4])))
-		case "UpdateTablePlayers":
-			j := []pt.JoinPlayer{{PlayerID: a[0], RedeemChips: int64(atoi(a[1])), Seat: atoi(a[2])}}
-			l := []string{a[3]}
-			canon = []string{fmtJoins(j), fmtStrs(l)}
-			var mp map[string]int
-			mp, err = m.UpdateTablePlayers(s.Table, j, l)
-			extra = fmtMap(mp)
-		case "PlayerReserve":
-			j := pt.JoinPlayer{PlayerID: a[0], RedeemChips: int64(atoi(a[1])), Seat: atoi(a[2])}
-			canon = []string{fmtJoin(j)}
-			err = m.PlayerReserve(s.Table, j)
-		case "PlayerRedeemChips":
-			j := pt.JoinPlayer{PlayerID: a[0], RedeemChips: int64(atoi(a[1])), Seat: atoi(a[2])}
-			canon = []string{fmtJoin(j)}
-			err = m.PlayerRedeemChips(s.Table, j)
-		case "PlayerJoin":
-			canon = a
-			err = m.PlayerJoin(s.Table, a[0])
-		case "PlayerSettlementFinish":
-			canon = a
-			err = m.PlayerSettlementFinish(s.Table, a[0])
-		case "PlayersLeave":
-			canon = []string{fmtStrs(a)}
-			err = m.PlayersLeave(s.Table, a)
-		case "PlayerExtendActionDeadline":
-			canon = a
-			var v int64
-			v, err = m.PlayerExtendActionDeadline(s.Table, a[0], atoi(a[1]))
-			extra = fmt.Sprint(v)
-		case "PlayerReady":
-			canon = a
-			err = m.PlayerReady(s.Table, a[0])
-		case "PlayerPay":
-			canon = a
-			err = m.PlayerPay(s.Table, a[0], int64(atoi(a[1])))
-		case "PlayerBet":
-			canon = a
-			err = m.PlayerBet(s.Table, a[0], int64(atoi(a[1])))
-		case "PlayerRaise":
-			canon = a
-			err = m.PlayerRaise(s.Table, a[0], int64(atoi(a[1])))
-		case "PlayerCall":
-			canon = a
-			err = m.PlayerCall(s.Table, a[0])
-		case "PlayerAllin":
-			canon = a
-			err = m.PlayerAllin(s.Table, a[0])
-		case "PlayerCheck":
-			canon = a
-			err = m.PlayerCheck(s.Table, a[0])
-		case "PlayerFold":
-			canon = a
-			err = m.PlayerFold(s.Table, a[0])
-		case "PlayerPass":
-			canon = a
-			err = m.PlayerPass(s.Table, a[0])
-		}
-		if canon == nil {
-			canon = []string{}
-		}
-		s.Args = canon
-		s.NotFnd = errors.Is(err, pt.ErrManagerTableNotFound)
-		s.MgrErr = err != nil
-		s.MgrRes = resString(err, extra)
-		rec.mu.Lock()
-		s.Calls = append([]C17Call{}, rec.calls...)
-		s.EngErr, s.EngRes = rec.lastE, rec.last
-		rec.mu.Unlock()
-		s.Present = pt.VerifHasTable(m, s.Table)
+		func() {
+			defer func() {
+				if r := recover(); r != nil {
+					// a panic inside a manager call is an observation, not a crash of the harness
+					panicked = true
+					s.MgrErr = true
+					s.MgrRes = fmt.Sprintf("PANIC: %v", r)
+					rec.mu.Lock()
+					s.Calls = append([]C17Call{}, rec.calls...)
+					if s.Calls == nil {
+						s.Calls = []C17Call{}
+					}
+					s.EngErr, s.EngRes = rec.lastE, rec.last
+					rec.mu.Unlock()
+					if s.Args == nil {
+						s.Args = []string{}
+					}
+					s.Present = pt.VerifHasTable(m, s.Table)
+					s.GenPost = genOf(m, s.Table)
+				}
+			}()
+			rec.mu.Lock()
+			rec.calls = nil
+			rec.last, rec.lastE = "", false
+			rec.mu.Unlock()
+			s.Known = pt.VerifHasTable(m, s.Table)
+			s.GenPre = genOf(m, s.Table)
+			var err error
+			extra := ""
+			a := s.Raw
+			var canon []string
+			switch s.Method {
+			case "CreateTable":
+				canon = []string{a[0]}
+				s.NewGen = gen + 1
+				_, err = m.CreateTable(opts, nil, mkSetting(s.Table, a[0] == "toomany"))
+				rec.res(err, "")
+				if err == nil {
+					gen++
+					// the registry now holds the raw engine; give it the announced generation
+					pt.VerifWrapTableEngine(m, s.Table, func(te pt.TableEngine) pt.TableEngine {
+						return &proxyEngine{TableEngine: te, id: s.Table, r: rec, gen: gen}
+					})
+				}
+			case "Reset":
+				m.Reset()
+			case "GetTableEngine":
+				_, err = m.GetTableEngine(s.Table)
+			case "ReleaseTable":
+				err = m.ReleaseTable(s.Table)
+			case "PauseTable":
+				err = m.PauseTable(s.Table)
+			case "CloseTable":
+				err = m.CloseTable(s.Table)
+			case "StartTableGame":
+				err = m.StartTableGame(s.Table)
+			case "SetUpTableGame":
+				parts := map[string]int{a[1]: 0}
+				canon = []string{a[0], fmtMap(parts)}
+				err = m.SetUpTableGame(s.Table, atoi(a[0]), parts)
+			case "UpdateBlind":
+				canon = a
+				err = m.UpdateBlind(s.Table, atoi(a[0]), int64(atoi(a[1])), int64(atoi(a[2])), int64(atoi(a[3])), int64(atoi(a[4])))
+			case "UpdateTablePlayers":
+				j := []pt.JoinPlayer{{PlayerID: a[0], RedeemChips: int64(atoi(a[1])), Seat: atoi(a[2])}}
+				l := []string{a[3]}
+				canon = []string{fmtJoins(j), fmtStrs(l)}
+				var mp map[string]int
+				mp, err = m.UpdateTablePlayers(s.Table, j, l)
+				extra = fmtMap(mp)
+			case "PlayerReserve":
+				j := pt.JoinPlayer{PlayerID: a[0], RedeemChips: int64(atoi(a[1])), Seat: atoi(a[2])}
+				canon = []string{fmtJoin(j)}
+				err = m.PlayerReserve(s.Table, j)
+			case "PlayerRedeemChips":
+				j := pt.JoinPlayer{PlayerID: a[0], RedeemChips: int64(atoi(a[1])), Seat: atoi(a[2])}
+				canon = []string{fmtJoin(j)}
+				err = m.PlayerRedeemChips(s.Table, j)
+			case "PlayerJoin":
+				canon = a
+				err = m.PlayerJoin(s.Table, a[0])
+			case "PlayerSettlementFinish":
+				canon = a
+				err = m.PlayerSettlementFinish(s.Table, a[0])
+			case "PlayersLeave":
+				canon = []string{fmtStrs(a)}
+				err = m.PlayersLeave(s.Table, a)
+			case "PlayerExtendActionDeadline":
+				canon = a
+				var v int64
+				v, err = m.PlayerExtendActionDeadline(s.Table, a[0], atoi(a[1]))
+				extra = fmt.Sprint(v)
+			case "PlayerReady":
+				canon = a
+				err = m.PlayerReady(s.Table, a[0])
+			case "PlayerPay":
+				canon = a
+				err = m.PlayerPay(s.Table, a[0], int64(atoi(a[1])))
+			case "PlayerBet":
+				canon = a
+				err = m.PlayerBet(s.Table, a[0], int64(atoi(a[1])))
+			case "PlayerRaise":
+				canon = a
+				err = m.PlayerRaise(s.Table, a[0], int64(atoi(a[1])))
+			case "PlayerCall":
+				canon = a
+				err = m.PlayerCall(s.Table, a[0])
+			case "PlayerAllin":
+				canon = a
+				err = m.PlayerAllin(s.Table, a[0])
+			case "PlayerCheck":
+				canon = a
+				err = m.PlayerCheck(s.Table, a[0])
+			case "PlayerFold":
+				canon = a
+				err = m.PlayerFold(s.Table, a[0])
+			case "PlayerPass":
+				canon = a
+				err = m.PlayerPass(s.Table, a[0])
+			}
+			if canon == nil {
+				canon = []string{}
+			}
+			s.Args = canon
+			s.NotFnd = errors.Is(err, pt.ErrManagerTableNotFound)
+			s.MgrErr = err != nil
+			s.MgrRes = resString(err, extra)
+			rec.mu.Lock()
+			s.Calls = append([]C17Call{}, rec.calls...)
+			s.EngErr, s.EngRes = rec.lastE, rec.last
+			rec.mu.Unlock()
+			s.Present = pt.VerifHasTable(m, s.Table)
+			s.GenPost = genOf(m, s.Table)
+		}()
 	}
 }
 
@@ -421,8 +517,8 @@ func (s C17Step) Coq() string {
 	for i, c := range s.Calls {
 		calls[i] = fmt.Sprintf("(%s, %s, %s)", coqStr(c.Table), coqStr(c.Method), coqStrs(c.Args))
 	}
-	return fmt.Sprintf("mks %s %s %s %v [%s] %v %v %s %v %s %v", coqStr(s.Method), coqStr(s.Table), coqStrs(s.Args), s.Known,
-		strings.Join(calls, "; "), s.NotFnd, s.MgrErr, coqStr(s.MgrRes), s.EngErr, coqStr(s.EngRes), s.Present)
+	return fmt.Sprintf("mks %s %s %s %v [%s] %v %v %s %v %s %v %s %s %d", coqStr(s.Method), coqStr(s.Table), coqStrs(s.Args), s.Known,
+		strings.Join(calls, "; "), s.NotFnd, s.MgrErr, coqStr(s.MgrRes), s.EngErr, coqStr(s.EngRes), s.Present, coqZ(s.GenPre), coqZ(s.GenPost), s.NewGen)
 }
 
 func (c C17Case) Coq() string {
